@@ -284,25 +284,29 @@ def macroSite (site : Nat) : Option Macro.Stmt :=
   | some (_, sev, usesWriter, _) => some ⟨site, if usesWriter then 1 else 0, sev, if site % 2 = 0 then 0 else 2⟩
   | none => none
 
-/-- `macro min <session> <sev> stmt <site> …` -/
+/-- `macro min <session> <sev> stmt <site> reseat …`; `reseat` = the thread's default writer is re-seated onto session 1
+    (`default_thread_local_writer() = SessionWriter(session1)`): from then on the statements of the basic families, which log
+    through that writer, belong to session 1 -/
 def cmdMacro (toks : List String) : String :=
-  let rec go (s : Macro.St) (toks : List String) (outs : List String) (fuel : Nat) : List String :=
+  let rec go (s : Macro.St) (reseated : Bool) (toks : List String) (outs : List String) (fuel : Nat) : List String :=
     match fuel with
     | 0 => outs
     | fuel + 1 =>
       match toks with
       | "min" :: a :: b :: rest =>
         match a.toNat?, b.toNat? with
-        | some a, some b => go (Macro.step s (.setMin a b)) rest (outs ++ ["min"]) fuel
+        | some a, some b => go (Macro.step s (.setMin a b)) reseated rest (outs ++ ["min"]) fuel
         | _, _ => outs ++ ["bad-op"]
+      | "reseat" :: rest => go s true rest (outs ++ ["reseat"]) fuel
       | "stmt" :: a :: rest =>
         match a.toNat?.bind macroSite with
         | some st =>
+          let st := if reseated then { st with session := 1 } else st
           let s' := Macro.step s (.stmt st)
-          go s' rest (outs ++ [s!"stmt events={s'.events - s.events} sources={s'.sources - s.sources} evals={s'.evals - s.evals}"]) fuel
+          go s' reseated rest (outs ++ [s!"stmt events={s'.events - s.events} sources={s'.sources - s.sources} evals={s'.evals - s.evals}"]) fuel
         | none => outs ++ ["bad-op"]
       | [] => outs
       | _ => outs ++ ["bad-op"]
-  ";".intercalate (go {} toks [] (toks.length + 1))
+  ";".intercalate (go {} false toks [] (toks.length + 1))
 
 end BinlogVerif.ConcProto
